@@ -58,7 +58,9 @@ TbRender == /\ IsComment /\ hist # <<>>
 
 Next == /\ Len(hist) < MaxOps
         /\ \/ \E c \in Contents, h \in Headers : TbNew(c, h)
-           \/ \E c \in Contents : TbAppend(c) \/ TbAdd(c) \/ TbIAdd(c)
+           \/ \E c \in Contents : TbAppend(c) \/ TbIAdd(c)
+           \* `comment + x` is a plain TextBlock, no longer text rendered as a comment: not part of the comment machine
+           \/ \E c \in Contents : ~IsComment /\ TbAdd(c)
            \/ \E e \in BOOLEAN : TbTrim(e)
            \/ \E cfg \in Cfgs : TbIndent(cfg)
            \/ TbRender
